@@ -60,7 +60,7 @@ Section Exists.
   Fixpoint stmt_exists (s : stmt) : bool :=
     let blk := fix blk (ss : list stmt) : bool := match ss with [] => false | x :: r => stmt_exists x || blk r end in
     match s with
-    | SExpr e | SAssert e | SDef _ _ e | SMutDef _ e | SUpdate _ _ e | SLam _ _ e | SPat _ _ e => expr_exists e
+    | SExpr e | SAssert e | SDef _ _ e | SMutDef _ e | SUpdate _ _ e | SLam _ _ e | SPat _ _ e | SNPat _ e => expr_exists e
     | SPrint es | SPCall _ es => existsb expr_exists es
     | SIf c th _ el => expr_exists c || blk th || blk el
     | SFor _ it body => expr_exists it || blk body
@@ -120,11 +120,19 @@ Definition known_quote_ambiguity : program -> bool :=
 (* type inference: the variable of a for! loop or of a list pattern has no fixed type; arithmetic or a comparison with a
    Float operand unifies it with Float, and every later use is wrapped in Float: `for! 3..<4, v => print!(1.5 + v, v)`
    prints 4.5 3.0 where the program means 4.5 3  (lower.rs / context: properties C02/C34) *)
+Fixpoint pat_vars (p : pat) : list Z :=
+  match p with
+  | PVar x => [x]
+  | PDiscard => []
+  | PTuple ps | PList ps => (fix go (ps : list pat) : list Z := match ps with [] => [] | q :: r => pat_vars q ++ go r end) ps
+  end.
+
 Fixpoint free_typed_vars (s : stmt) : list Z :=
   let blk := fix blk (ss : list stmt) : list Z := match ss with [] => [] | x :: r => free_typed_vars x ++ blk r end in
   match s with
   | SFor x _ body => x :: blk body
   | SPat true ids _ => ids
+  | SNPat p _ => pat_vars p
   | SIf _ th _ el => blk th ++ blk el
   | SWhile _ body => blk body
   | SFun _ _ _ _ body => blk body
